@@ -158,7 +158,9 @@ var FormatListFunc = function.New(&function.Spec{
 	Results:
 		for iterIdx := 0; iterIdx < iterLen; iterIdx++ {
 
-			// Construct our arguments for a single format call
+			// Construct our arguments for a single format call. We must
+			// advance every iterator on every iteration, even if we find an
+			// unknown value, so that the sequences stay aligned.
 			for i := range fmtArgs {
 				switch {
 				case iterators[i] != nil:
@@ -169,7 +171,9 @@ var FormatListFunc = function.New(&function.Spec{
 				default:
 					fmtArgs[i] = singleVals[i]
 				}
+			}
 
+			for i := range fmtArgs {
 				// If any of the arguments to this call would be unknown then
 				// this particular result is unknown, but we'll keep going
 				// to see if any other iterations can produce known values.
